@@ -35,7 +35,27 @@ attribute's presence and value in the instance __dict__ equals the model's
 (expired <=> absent); the committed table (observer) equals the model's; an
 OperationalError occurs exactly where the model predicts the refusal.
 
-Mutations caught: see the end of this docstring (filled when run).
+Implementation facts the reference had to learn (validated on every history):
+refresh() first expires what it refreshes (pending changes of that object are
+dropped), then autoflushes the rest; reading an expired attribute autoflushes;
+Session.rollback() without a transaction is a no-op while commit() always
+expires; a flush of an object expired as a whole (primary key attribute
+expired) reads the key back and thereby loads its other expired attributes;
+the "modified" flag of an object survives an attribute-level expire of the
+change that set it.  The WAL file is created once per process and reset to
+its initial rows through the observer before every replay (a committed write,
+which also proves that no lock was left behind).
+
+Mutations caught (private copy, VF_REPO=/tmp/wt-orm3):
+ M1 session.py refresh: no expire before the load (pending change survives a
+    refresh) -> "refresh(p2) -> p2.x is 7, reference 1"
+ M2 session.py expire(obj, [attr]) expires the whole object (pending changes
+    of other attributes lost) -> "expire(p1, [y]) -> p1.x is <expired>, reference 7"
+ M3 loading.py populate_existing ignored -> "get(P, p1, populate_existing=True)
+    -> p1.x is 1, reference 2"
+ M4 session.py commit does not expire with expire_on_commit=True
+ M5 state.py _load_expired also reloads attributes with pending changes ->
+    "refresh(p2) -> p1.x is 1, reference 7"
 """
 import copy
 import gc
@@ -71,7 +91,7 @@ META = dict(
         "SQLite WAL snapshot isolation, timeout=0, python sqlite3 autocommit=False (PEP 249 transaction control)",
         "one Session, one external writer that commits each statement immediately",
     ],
-    bounds=dict(quick="expire_on_commit x all histories of length <= 4 (canonical-state dedupe)", thorough="length <= 6, full alphabet for both objects"),
+    bounds=dict(quick="expire_on_commit x all histories of length <= 4 over 26 ops (canonical-state dedupe below each first op)", thorough="length <= 5 over the full alphabet (31 ops) for both objects"),
 )
 
 OBJS = ("p1", "p2")
@@ -123,6 +143,11 @@ class SnapModel:
         self.mem = {(o, a): 1 for o in OBJS for a in ATTRS}  # start: loaded
         self.dirty = set()
         self.in_tx = False  # Session transaction begun (first SQL or first attribute change)
+        # whole-object expiry also expires the primary key attribute; a flush
+        # of such an object reads the key back, which loads every expired,
+        # unmodified attribute of that object
+        self.pk_exp = {o: False for o in OBJS}
+        self.modified = {o: False for o in OBJS}
 
     def copy(self):
         return copy.deepcopy(self)
@@ -135,15 +160,24 @@ class SnapModel:
             self.snap_version = self.version
 
     def flush(self):
-        if not self.dirty:
+        """autoflush / commit: every object flagged modified is processed (the
+        flag survives an attribute-level expire of the change itself)"""
+        mods = [o for o in OBJS if self.modified[o]]
+        if not mods:
             return
-        self.stmt()
-        if self.snap_version != self.version:
-            raise Locked()  # write from a stale read snapshot
-        for k in self.dirty:
-            self.snap[k] = self.mem[k]
-        self.wlock = True
-        self.dirty = set()
+        for o in mods:
+            if self.pk_exp[o]:
+                self.stmt()
+                self.load_expired(o)
+        if self.dirty:
+            self.stmt()
+            if self.snap_version != self.version:
+                raise Locked()  # write from a stale read snapshot
+            for k in self.dirty:
+                self.snap[k] = self.mem[k]
+            self.wlock = True
+            self.dirty = set()
+        self.modified = {o: False for o in OBJS}
 
     def rollback(self):
         if not self.in_tx:
@@ -154,10 +188,13 @@ class SnapModel:
         self.dirty = set()
         for k in self.mem:
             self.mem[k] = EXP
+        self.pk_exp = {o: True for o in OBJS}
+        self.modified = {o: False for o in OBJS}
 
     def load_expired(self, o):
+        self.pk_exp[o] = False
         for a in ATTRS:
-            if self.mem[(o, a)] == EXP:
+            if self.mem[(o, a)] == EXP and (o, a) not in self.dirty:
                 self.mem[(o, a)] = self.snap[(o, a)]
 
     # -- operations; return value for read, None otherwise; raises Locked
@@ -171,6 +208,8 @@ class SnapModel:
             self.version += 1
             return "done"
         if name == "expire":
+            self.pk_exp[op[1]] = True
+            self.modified[op[1]] = False
             for a in ATTRS:
                 self.mem[(op[1], a)] = EXP
                 self.dirty.discard((op[1], a))
@@ -182,6 +221,8 @@ class SnapModel:
             for k in self.mem:
                 self.mem[k] = EXP
             self.dirty = set()
+            self.pk_exp = {o: True for o in OBJS}
+            self.modified = {o: False for o in OBJS}
         elif name == "read":
             k = (op[1], op[2])
             if self.mem[k] == EXP:
@@ -197,16 +238,20 @@ class SnapModel:
                 self.load_expired(op[1])
             self.mem[k] = 7 if self.mem[k] != 7 else 8
             self.dirty.add(k)
+            self.modified[op[1]] = True
             self.in_tx = True
         elif name in ("refresh", "get_pe"):
             if name == "refresh":
                 # refresh = expire (pending changes of the object are dropped),
                 # autoflush of everything else, load
+                self.pk_exp[op[1]] = True
+                self.modified[op[1]] = False
                 for a in ATTRS:
                     self.mem[(op[1], a)] = EXP
                     self.dirty.discard((op[1], a))
             self.flush()
             self.stmt()
+            self.pk_exp[op[1]] = False
             for a in ATTRS:
                 self.mem[(op[1], a)] = self.snap[(op[1], a)]
         elif name == "refresh1":
@@ -221,6 +266,7 @@ class SnapModel:
             self.stmt()
             for k in self.mem:
                 self.mem[k] = self.snap[k]
+            self.pk_exp = {o: False for o in OBJS}
         elif name == "query":
             self.flush()
             self.stmt()
@@ -234,9 +280,11 @@ class SnapModel:
             self.snap = None
             self.wlock = False
             self.in_tx = False
+            self.modified = {o: False for o in OBJS}
             if self.eoc:
                 for k in self.mem:
                     self.mem[k] = EXP
+                self.pk_exp = {o: True for o in OBJS}
         elif name == "rollback":
             self.rollback()
         return None
@@ -256,6 +304,8 @@ class SnapModel:
             self.in_tx,
             tuple(sorted(self.mem.items())),
             tuple(sorted(self.dirty)),
+            tuple(sorted(self.pk_exp.items())),
+            tuple(sorted(self.modified.items())),
         )
 
 
@@ -269,10 +319,30 @@ class Ctx:
 INIT_SQL = "insert into p (id, name, x, y) values (1, 'p1', 1, 1);\ninsert into p (id, name, x, y) values (2, 'p2', 1, 1)"
 
 
+_DB = {}
+
+
+def _fresh_db(w):
+    """the database in its initial content.  The per-process WAL file is
+    created once; before every replay both rows are put back through the
+    observer (a committed write, which also proves that the previous replay
+    left no lock behind) - if that is refused the file is thrown away and
+    created anew."""
+    import os
+
+    db = _DB.get(os.getpid())
+    if db is not None:
+        if db.external("update p set x = 1, y = 1") and db.committed("select id, x, y from p order by id") == [(1, 1, 1), (2, 1, 1)]:
+            return db
+        db.close()
+    db = _DB[os.getpid()] = FileDb(w, INIT_SQL)
+    return db
+
+
 def build(eoc):
     ctx = Ctx()
     w = ctx.w = world("m2o", None, "bp")
-    ctx.db = FileDb(w, INIT_SQL)
+    ctx.db = _fresh_db(w)
     ctx.sess = Session(ctx.db.engine, expire_on_commit=eoc)
     ctx.objs = {"p1": ctx.sess.get(w.P, 1), "p2": ctx.sess.get(w.P, 2)}
     # the two loads opened the session's transaction: end it without expiring
@@ -421,7 +491,6 @@ def make_step(rec, eoc, tier):
             return _step(ctx, hist_, ms, op)
         finally:
             ctx.sess.close()
-            ctx.db.close()
 
     def _step(ctx, hist_, ms, op):
         m2 = ms.copy()
@@ -475,7 +544,19 @@ def make_step(rec, eoc, tier):
 def depth_for(tier):
     if tier in DEPTH:
         return DEPTH[tier]
-    return 4 if tier == "quick" else 6
+    return 4 if tier == "quick" else 5
+
+
+def finish(tier, total):
+    """the workers are gone: remove their /dev/shm scratch databases"""
+    from ..worlds.ormworld3 import cleanup_shm, cleanup_stale_shm
+
+    for db in _DB.values():
+        db.close()
+    _DB.clear()
+    cleanup_shm()
+    cleanup_stale_shm()
+    return None
 
 
 def shards(tier, seed):
